@@ -520,6 +520,57 @@ def r4_pawn_geometry(ctx):
 
 
 # ---------------------------------------------------------------------------------------------------------
+def pawn_attack_init(ctx, facts, name, parts, col):
+    """True when, for this colour, the union of the attack map starts from the set-wise pawn attacks of the own pawns: the initial value
+    of the accumulator is a shift/mask expression of the pawn set that denotes, for every single pawn, exactly its two forward
+    diagonals (such expressions distribute over union).  A string describes the first discrepancy otherwise."""
+    outs = Engine(facts, opaque=parts).run(name, args=[None, None, COLORS[col]])
+    pawns = ('fld', ('idx', ('fld', ('fld', ('der', ('p', 2)), col.lower()), 'bitboards'), C(facts.variant_discr(PIECE_ADT, 'Pawn'))), '0')
+    inits = set()
+    for o in outs:
+        if o.kind != 'backedge':
+            continue
+        head = [e for e in o.events if e[0] == 'loop_head'][-1]
+        for l, t in (o.locals or {}).items():
+            f0 = t
+            if t[0] == 'agg' and t[4]:
+                f0 = t[4][0][1]
+            elif t[0] == 'upd':
+                f0 = t[4]
+            if f0[0] == 'bin' and f0[1] == 'BitOr' and any(s_[0] == 'lv' and s_[2] == l for s_ in subterms(f0)):
+                if head[3].get(l) is not None:
+                    inits.add(head[3][l])
+    if len(inits) != 1:
+        return 'no single initial value of the union'
+    init = next(iter(inits))
+    core = init[4][0][1] if init[0] == 'agg' and init[4] else init
+
+    def linear(t):
+        if t == pawns:
+            return True
+        if t[0] == 'c':
+            return True
+        if t[0] == 'bin' and t[1] in ('Shl', 'Shr'):
+            return linear(t[2]) and is_const(t[3])
+        if t[0] == 'bin' and t[1] == 'BitAnd':
+            return (linear(t[2]) and is_const(t[3])) or (is_const(t[2]) and linear(t[3]))
+        if t[0] == 'bin' and t[1] == 'BitOr':
+            return linear(t[2]) and linear(t[3])
+        if t[0] == 'un' and t[1] == 'Not':
+            return is_const(t[2])
+        return False
+    if not linear(core):
+        return 'initial value is not a shift/mask expression of the own pawns: ' + show(core)[:120]
+    try:
+        for i in range(64):
+            got = ev(core, {pawns: 1 << i})
+            if got != geom(i, pawn_dirs(col)):
+                return 'pawn on %s attacks %s' % (sq_name(1 << i), sorted(sq_name(1 << x) for x in squares(got)))
+    except Unevaluable:
+        return 'not evaluable'
+    return True
+
+
 def r5_attack_map(ctx):
     rule = 'C01.R5-attack-map'
     facts = ctx.facts
@@ -547,7 +598,22 @@ def r5_attack_map(ctx):
         if set(sig) == {'generate_pawn_attack_targets', 'generate_sliding_targets', 'generate_targets_from_precomputed_tables:Knight',
                         'generate_targets_from_precomputed_tables:King'} and cols == {('p', 3)} and len(boards) == 1 and len(lists) == 1:
             ok = True
-    ctx.ob(rule, name, 'pawn, sliding, knight and king contributions for the same colour, board and list', ok, found=found,
+    # the pawn contribution may also be computed set-wise and used as the initial value of the union (decided per colour below)
+    setwise = {}
+    if not ok:
+        for col in ('White', 'Black'):
+            setwise[col] = pawn_attack_init(ctx, facts, name, parts, col)
+        if all(v is True for v in setwise.values()):
+            for o in outs:
+                calls = [e for e in o.events if e[0] == 'call' and e[1] in parts]
+                sig = set()
+                for e in calls:
+                    nm = e[1].rsplit('::', 1)[-1]
+                    sig.add(nm + ':' + e[2][4][3] if nm == 'generate_targets_from_precomputed_tables' and e[2][4][0] == 'agg' else nm)
+                cols = {e[2][3] for e in calls}
+                if sig == {'generate_sliding_targets', 'generate_targets_from_precomputed_tables:Knight', 'generate_targets_from_precomputed_tables:King'} and cols == {('p', 3)}:
+                    ok = True
+    ctx.ob(rule, name, 'pawn, sliding, knight and king contributions for the same colour, board and list', ok, found={'calls': found, 'set-wise pawn attacks': setwise or None},
            expected=['pawn attacks', 'sliding', 'Knight table', 'King table'], why='a piece class missing from the attack map lets the king stand on a square it attacks')
     # union loop: attack_targets |= targets for every element
     backs = [o for o in outs if o.kind == 'backedge']
@@ -562,7 +628,7 @@ def r5_attack_map(ctx):
                 f0 = t[4]
             if f0[0] == 'bin' and f0[1] == 'BitOr' and any(s[0] == 'lv' and s[2] == l for s in subterms(f0)):
                 init = head[3].get(l)
-                oku = init is not None and bb_of(init) == 0
+                oku = init is not None and (bb_of(init) == 0 or all(v is True for v in setwise.values()) and bool(setwise))
     if not oku:
         # the same union written as a fold: list.iter().fold(EMPTY, |acc, &(_, t)| acc | t) returned as the result
         for o in outs:
